@@ -39,8 +39,19 @@ type decoder struct {
 	CRC   bool                         // checksummed format (acceptance of mutated input is tallied separately)
 	Tally bool                         // decoder without error result outside the statement's list: panics are tallied, not reported
 
+	// Frame > 0: the first Frame bytes of the input are a length prefix that is independent of the payload kind. Every
+	// corrupted prefix that declares a huge frame kills the child (known finding), so the quick tier mutates the prefix
+	// only for the first two bases; the thorough tier mutates it for every base.
+	Frame    int
 	ArbLen   func(th bool) int // overrides the codec's bound for arbitrary strings
 	NoPrefix bool              // arbitrary strings are not tried behind the codec's prefixes (they belong to another decoder)
+}
+
+func (d decoder) frameSkip(th bool, base int) int {
+	if d.Frame > 0 && !th && base >= 2 {
+		return d.Frame
+	}
+	return 0
 }
 
 type codec struct {
@@ -648,7 +659,7 @@ var manifestCodec = codec{
 		// framed input: the codec prefix (payload magic) would be read as a 1.4 GB frame length, and a complete 4-byte
 		// length with a large value is fatal by itself (known finding; every death costs a child restart): the quick
 		// tier stops short of a complete length, the mutation family covers the length field
-		{Name: "manifest.readEdit", NoPrefix: true, ArbLen: func(th bool) int { return pick(th, 3, 5) }, Prep: func(in []byte) func() error {
+		{Name: "manifest.readEdit", Frame: 4, NoPrefix: true, ArbLen: func(th bool) int { return pick(th, 3, 5) }, Prep: func(in []byte) func() error {
 			r := bufio.NewReaderSize(bytes.NewReader(in), 16)
 			return func() error { _, err := manifest.VerifReadEdit(r); return err }
 		}},
